@@ -21,7 +21,7 @@ FaultScn(s) == {With(s, fs) : fs \in SeqsUpTo(FaultKinds \cap KindsOf(s.naming),
 
 \* ---- family "args": each kind of invalid argument x mode x threads x naming over a few file lists
 \* (a file that would match, so that results would appear if the error were not fatal)
-ArgFiles == {<<"match">>, <<"match", "nomatch">>, <<"perm", "match">>}
+ArgFiles == {<<"match">>, <<"match", "nomatch">>, <<"perm", "match">>, <<"prematch">>}
 ArgSeeds == {s \in {[Base EXCEPT !.fam = "args", !.mode = m, !.threads = t, !.naming = n, !.args = a]
                       : m \in Modes, t \in ThreadSet, n \in Namings, a \in ArgKinds \ {"ok"}}
                : ~(s.mode = "files" /\ s.args = "badregex")}
@@ -31,7 +31,7 @@ ArgScn(s) == {With(s, fs) : fs \in ArgFiles}
 PipeSeeds == {[Base EXCEPT !.fam = "pipe", !.mode = m, !.threads = t, !.naming = n]
                 : m \in Modes \ {"quiet"}, t \in ThreadSet, n \in Namings}
 PipeScn(s) == {x \in {[With(s, fs) EXCEPT !.cut = c]
-                        : fs \in SeqsUpTo({"match", "nomatch", "binary"}, MaxPipeFiles), c \in 0..(Cuts - 1)}
+                        : fs \in SeqsUpTo({"match", "prematch", "nomatch", "binary"}, MaxPipeFiles), c \in 0..(Cuts - 1)}
                  : ClosedOK(x)}
 
 MCSeeds == (IF "faults" \in Fams THEN FaultSeeds ELSE {})
@@ -42,7 +42,7 @@ MCScenariosOf(s) == CASE s.fam = "faults" -> FaultScn(s)
                       [] s.fam = "args"   -> ArgScn(s)
                       [] s.fam = "pipe"   -> PipeScn(s)
 
-AllKinds == Kinds
+AllKinds == Kinds \ {"prematch"}       \* (a working preprocessor takes part in the closed-pipe family only)
 FiveKinds == {"match", "nomatch", "binary", "perm", "prefail"}
 OnlyFalse == {FALSE}
 Both == {FALSE, TRUE}
